@@ -719,24 +719,71 @@ def framing(run, roles, L):
 
 
 def helper_semantics(run, project, roles):
-    """is_list and the encrypted() synthesis that the walkers rely on"""
+    """is_list and the encrypted() synthesis that the walkers rely on: the functions are folded over the table data they
+    are applied to (every type shape / every parameter area of L) and the results compared - their text is not looked at"""
+    from ..minieval import Interp, ListAlias, NewType, Raised, TypeRef
+    L = ctx.layout(project)
     util = project.module("tpmstream.common.util")
     f = util.functions().get("is_list")
     if f is None:
         raise AnalysisError("is_list not found")
-    p = f.args.args[0].arg
-    txt = norm(f)
-    ok = f"if {p} is list:" in txt and f"hasattr({p}, '__origin__') and {p}.__origin__ is list" in txt and txt.rstrip().endswith("return False")
-    run.ob("W6", ok, "is_list recognises list and list[...] only", "is_list changed", module=util, node=f, func="is_list")
+    lst = TypeRef("list")
+    cases = [("list", lst, True), ("list[BYTE]", ListAlias(TypeRef("BYTE")), True), ("list[TPMS_X]", ListAlias(TypeRef("TPMS_X")), True),
+             ("UINT16", TypeRef("UINT16"), False), ("TPMS_X", TypeRef("TPMS_X", annotations={}), False), ("None", None, False),
+             ("dict", TypeRef("dict"), False)]
+    for label_, v, want in cases:
+        try:
+            got = Interp({"list": lst}).call(f, [v])
+        except Raised as r:
+            got = f"raises {r.cls}"
+        run.ob("W6", got is want, f"is_list({label_}) is {want}", f"is_list({label_}) gives {got}: is_list recognises list and list[...] only",
+               module=util, node=f, func="is_list", construct="is_list")
     pc = project.module("tpmstream.spec.commands.params_common")
     e = pc.functions().get("TPMS_PARAMS.encrypted")
     if e is None:
         raise AnalysisError("TPMS_PARAMS.encrypted not found")
-    txt = norm(e)
-    ok = "first_param = {list(params.keys())[0]: TPM2B_ENCRYPTED_PARAM}" in txt and "other_params = dict(list(params.items())[1:])" in txt \
-        and "new_type.__annotations__ = {**first_param, **other_params}" in txt and "return tpm_dataclass(new_type)" in txt
-    run.ob("F", ok, "encrypted(): first parameter becomes TPM2B_ENCRYPTED_PARAM, the others keep their order",
-           "the synthesis of the encrypted parameter layout changed", module=pc, node=e, func="TPMS_PARAMS.encrypted")
+    ENC = TypeRef("TPM2B_ENCRYPTED_PARAM")
+
+    def tref(t):
+        return ListAlias(TypeRef(L.key(t.elem))) if isinstance(t, ListT) else TypeRef(t.name if isinstance(t, ClassV) else str(t))
+    areas = [(k, c) for k, c in sorted(L.all.items()) if isinstance(c, ClassV) and c.is_subclass_of(L.TPMS_PARAMS)]
+    n = 0
+    for k, c in areas:
+        own = [(fn_, ft) for fn_, ft in L.fields(c)] if c is not L.TPMS_PARAMS else []
+        cls = TypeRef(c.name, annotations={fn_: tref(ft) for fn_, ft in own} if own else None, attrs={"_encrypted": False})
+        marks = []
+
+        def tpm_dataclass(x, marks=marks):
+            marks.append(x)
+            return x
+        try:
+            got = Interp({"TPM2B_ENCRYPTED_PARAM": ENC, "tpm_dataclass": tpm_dataclass}).call(e, [cls])
+        except Raised as r:
+            run.ob("F", False, f"encrypted() of {k}", f"encrypted() raises {r.cls} for the parameter area {k} (line {getattr(r.node, 'lineno', '?')})",
+                   module=pc, node=r.node, func="TPMS_PARAMS.encrypted", construct="encrypted() failure")
+            continue
+        n += 1
+        first = own[0][1] if own else None
+        opaque = isinstance(first, ClassV) and first.name.startswith("TPM2B")
+        if not opaque:
+            run.ob("F", got is cls, f"encrypted() of {k}: no leading TPM2B parameter, the area is unchanged",
+                   f"encrypted() of {k} (first parameter {L.key(first) if first is not None else None}) gives {got!r} instead of the class "
+                   "itself: the synthesis of the encrypted parameter layout changed", module=pc, node=e, func="TPMS_PARAMS.encrypted",
+                   construct="encrypted() plain areas")
+            continue
+        ok = isinstance(got, NewType) and got.name == c.name and got in marks
+        ann = got.attrs.get("__annotations__") if isinstance(got, NewType) else None
+        want = [(own[0][0], "TPM2B_ENCRYPTED_PARAM")] + [(fn_, tref(ft)) for fn_, ft in own[1:]]
+        okann = isinstance(ann, dict) and len(ann) == len(want) and all(
+            a == w[0] and ((isinstance(t, TypeRef) and (t.name == w[1] if isinstance(w[1], str) else isinstance(w[1], TypeRef) and t.name == w[1].name))
+                           or (isinstance(t, ListAlias) and isinstance(w[1], ListAlias) and t.elem.name == w[1].elem.name))
+            for (a, t), w in zip(ann.items(), want))
+        run.ob("F", ok and okann and got.attrs.get("_encrypted") is True,
+               f"encrypted() of {k}: first parameter becomes TPM2B_ENCRYPTED_PARAM, the others keep their order",
+               f"encrypted() of {k} gives {got!r} (dataclass: {got in marks if isinstance(got, NewType) else None}, _encrypted: "
+               f"{got.attrs.get('_encrypted') if isinstance(got, NewType) else None}): the synthesis of the encrypted parameter layout changed",
+               module=pc, node=e, func="TPMS_PARAMS.encrypted", construct="encrypted() synthesis")
+    run.require(n >= 200, f"F: encrypted() folded over only {n} parameter areas")
 
 
 def w9(run, roles):
